@@ -277,3 +277,69 @@ Proof.
     pose proof (absc_cwd_of _ _ _ _ S2) as Ed. rewrite <- Ed in S2.
     destruct (IH _ _ S2 Hc2) as (I1 & I2). cbn [impl_run spec_run fst snd]. split; [constructor; assumption|exact I2].
 Qed.
+
+(* ---- non-vacuity: Chdir (absolute, then relative through a link), Getwd, Stat of a relative path, on the link tree ---- *)
+Module StepCwdExamples.
+  Import WalkSymExamples WalkSymNonVacuity StepExamples StepInvExamples WalkRelExamples.
+
+  Definition c1 := CChdir 0 (abs_path [s_d; s_e]).
+  Definition c2 := CGetwd 0.
+  Definition c3 := CStat 0 (relp [DD; s_up]).
+  Definition c4 := CChdir 0 (relp [s_top]).
+  Definition hc : list call := [c1; c2; c3; c4; c2].
+
+  Definition w1 := Eval vm_compute in fst (impl_step_proj w_tree c1).
+  Definition sw1 := Eval vm_compute in fst (spec_step true sw_tree c1).
+  Definition w4 := Eval vm_compute in fst (impl_step_proj w1 c4).
+  Definition sw4 := Eval vm_compute in fst (spec_step true sw1 c4).
+
+  Lemma tree_hyps_any (d : str) (n : nat) :
+    step_hyps tree_fs {| sv_view := set_cwd adminv d; sv_cwd := n |}.
+  Proof. split; [reflexivity|reflexivity|exact tree_wf|exact tree_links_clean|reflexivity]. Qed.
+
+  Ltac good_tac :=
+    repeat constructor; try discriminate;
+    let x := fresh "x" in let Hx := fresh "Hx" in
+    intros x Hx; cbn in Hx; repeat (destruct Hx as [Hx|Hx]; [subst x; discriminate|]); destruct Hx.
+
+  Example hc_covered : absc w_tree 0 sw_tree (cwd_of w_tree 0) /\ covered_c_run 0 w_tree sw_tree hc.
+  Proof.
+    split.
+    { split; [reflexivity|]. split; [reflexivity|]. exists []. split; [constructor|]. split; reflexivity. }
+    unfold hc. cbn [covered_c_run].
+    change (fst (impl_step_proj w_tree c1)) with w1. change (fst (spec_step true sw_tree c1)) with sw1.
+    change (fst (impl_step_proj w1 c2)) with w1. change (fst (spec_step true sw1 c2)) with sw1.
+    change (fst (impl_step_proj w1 c3)) with w1. change (fst (spec_step true sw1 c3)) with sw1.
+    change (fst (impl_step_proj w1 c4)) with w4. change (fst (spec_step true sw1 c4)) with sw4.
+    split; [|split; [|split; [|split; [|split; [|exact I]]]]].
+    - (* Chdir "/d/e" *)
+      right; left. split; [apply tree_hyps_any|]. exists (abs_path [s_d; s_e]). split; [reflexivity|]. split.
+      + apply (sym_bridge_lookup_x tree_fs _ SlEval [s_d; s_e]); try reflexivity;
+          [exact tree_wf|exact tree_links_clean|good_tac|vm_compute; discriminate|vm_compute; discriminate].
+      + vm_compute. discriminate.
+    - right; right. split; [apply tree_hyps_any|]. split; [exact (@inv_heap _ tree_inv)|reflexivity].
+    - (* Stat "../up" from /d/e *)
+      left. split.
+      + right. split; [apply tree_hyps_any|]. split; [reflexivity|]. split.
+        * change (relp [DD; s_up]) with (clean Linux (relp [DD; s_up])).
+          apply (sym_bridge_lookup_rel tree_fs _ SlStat [s_d; s_e] (relp [DD; s_up])); try reflexivity;
+            [exact tree_wf|exact tree_links_clean|good_tac|vm_compute; discriminate|vm_compute; discriminate].
+        * vm_compute. discriminate.
+      + exists [s_d; s_e]. split; [good_tac|]. split; reflexivity.
+    - (* Chdir "top" (a link to "../../d") *)
+      right; left. split; [apply tree_hyps_any|]. exists (relp [s_top]). split; [reflexivity|]. split.
+      + change (relp [s_top]) with (clean Linux (relp [s_top])).
+        apply (sym_bridge_lookup_rel_x tree_fs _ SlEval [s_d; s_e] (relp [s_top])); try reflexivity;
+          [exact tree_wf|exact tree_links_clean|good_tac|vm_compute; discriminate|vm_compute; discriminate].
+      + vm_compute. discriminate.
+    - right; right. split; [apply tree_hyps_any|]. split; [exact (@inv_heap _ tree_inv)|reflexivity].
+  Qed.
+
+  Example hc_agree :
+    Forall2 obs_sim (snd (impl_run w_tree hc)) (snd (spec_run sw_tree hc))
+    /\ cwd_of (fst (impl_run w_tree hc)) 0 = abs_path [s_d] /\ sv_cwd (sw_sv (fst (spec_run sw_tree hc))) = 1.
+  Proof.
+    split; [exact (proj1 (history_c 0 hc w_tree sw_tree (proj1 hc_covered) (proj2 hc_covered)))|].
+    vm_compute. split; reflexivity.
+  Qed.
+End StepCwdExamples.
